@@ -81,3 +81,12 @@ def c09_infinite_bound_written_as_bare_infinity(w):
     """an infinite min/max is written by json.dumps as the non-JSON token Infinity / -Infinity"""
     m = _mech(w)
     return w.get('kind') == 'not_strict_json' and m.get('problem') == 'non-json-constant' and m.get('bare_infinity')
+
+
+@classifier
+def c16_string_cell_is_pandas_na_token(w):
+    """pandas' default NA tokens stay enabled when reading with CSVW metadata, so a string cell such as
+    NA / null / None / n/a / NaN loads as null although CSVW's only default null marker is the empty string"""
+    m = _mech(w)
+    return (w.get('kind') == 'cell_value' and m.get('declared') == 'string' and m.get('string_is_pandas_na_token')
+            and m.get('became_null'))
